@@ -1,3 +1,38 @@
+/-
+  Tie of the three TRANSLATED `JsonHandler` methods (/repo/logger/json_handler.go: `WithGroup` :72,
+  `WithAttrs` :56, `Handle` :92; regenerated into Glb/Generated/TrJsonHandler.lean on every run, at the
+  level of values: the handler state is the triple `(pre, nOpen, addSep)`, `buf` starts as a parameter,
+  clone / pool / lock / Write are left out) to the hand model of Glb/Model/JsonHandler.lean (`H`,
+  `withGroup`, `withAttrs`, `handle`, `attrLoop`, `Rec`) that the C01 main theorem `C01.C01_line` is about.
+
+      Json_WithGroup_eq : Json_WithGroup h.pre h.nOpenGroups h.addSep name = .ok (triple of withGroup h name)
+      Json_WithAttrs_eq : depthList as ≤ fuel →
+                          Json_WithAttrs fuel h.pre h.nOpenGroups h.addSep as = .ok (triple of withAttrs h as)
+      Json_Handle_exact : r.line = itoa lineNo → depthList r.attrs ≤ fuel → -2 ≤ r.level →
+                          (Json_Handle fuel [] addSource h.pre … r.attrs).map (·.1) = handle addSource h r
+      Json_Handle_eq    : the same for ALL levels after `Except.toOption`
+
+  Fuel convention: `Json_WithAttrs fuel` / `Json_Handle fuel` pass `fuel` itself to the recursive
+  `appendJsonAttr`, so the hypothesis is `depthList attrs ≤ fuel` (Tie/TrJsonAttr: `depth a ≤ fuel`).
+
+  Panics: the only possible one is the level-label index of `appendFullLevel` (`labelList[level+2]`).
+  Translated code and model panic on exactly the same levels (`level < -2 ∨ 17 < level`), but for
+  `level + 2 < 0` the PAYLOAD differs (`.other "index<0"` of `Glb.Go.idxI` vs the model's
+  `.other "index out of range (negative)"`), so `Json_Handle_exact` is exact equality (ok-results and
+  out-of-range panics with payload) under `-2 ≤ r.level`, and `Json_Handle_eq` is equality after
+  `Except.toOption` for every level (ok-results agree, one side errs iff the other errs).
+
+  Proof: the range loop over the attributes (the same loop in `WithAttrs` and `Handle`, state
+  `(i, buf, addSep)`) is rewritten with `loop_eq`; the rest of the loop from index `i` is the model's
+  `attrLoop buf (as.drop i) addSep false` (its `wrote` component is irrelevant: `attrLoop_wrote`), each
+  element's call is rewritten with `TrJsonAttr.appendJsonAttr_eq`.  The closing-braces loop
+  `for i := 0; i < h.nOpenGroups; i++` from state `(buf, i)` is `buf ++ replicate (nOpen - i) '}'`.
+  The guards `len(h.preformatted) > 0` / `r.NumAttrs() > 0` / `len(attrs) == 0` are case splits
+  (`buf ++ [] = buf`, `attrLoop buf [] … = buf`).
+
+      trDeriveAll_eq      : a chain of translated `WithAttrs`/`WithGroup` = the model's `deriveAll`
+      C01_line_translated : `C01.C01_line` for the translated chain + translated `Handle`
+-/
 import Glb.Go.Lemmas
 import Glb.Go.LibJson
 import Glb.Generated.TrJsonHandler
@@ -10,6 +45,8 @@ import Glb.Props.C01
 namespace Glb.Tie.TrJsonHandler
 open Glb.Go Glb.JsonHandler Glb.Go.LibJson Glb.Tie.TrJsonAttr
 
+/-- **the translated `WithGroup` is the model's `withGroup`** on the state triple, for every handler
+    state and group name (no panic) -/
 theorem Json_WithGroup_eq (h : H) (name : Bytes) :
     Glb.Tr.Logger.Json_WithGroup h.pre (h.nOpenGroups : Int) h.addSep name
       = .ok ((withGroup h name).pre, ((withGroup h name).nOpenGroups : Int),
@@ -99,6 +136,10 @@ macro "close_loop_step" : tactic => `(tactic|
      have e2 : (n : Int) = (nOpen : Int) := by omega
      simp [hn', e1, e2]))
 
+/-- **the translated `Handle` is the model's `handle`**, exact equality (bytes, and the out-of-range
+    panic of the level label with its payload) for every handler state, record and `addSource`, under
+    `-2 ≤ r.level` (below that both sides panic, with different payloads: see `Json_Handle_eq`);
+    `r.line` is the decimal text of the translated code's line number -/
 theorem Json_Handle_exact (fuel : Nat) (addSource : Bool) (h : H) (r : Rec) (lineNo : Int)
     (hline : r.line = Glb.Go.Lib.itoa lineNo) (hf : depthList r.attrs ≤ fuel)
     (hlevel : -2 ≤ r.level) :
@@ -166,5 +207,119 @@ theorem Json_Handle_exact (fuel : Nat) (addSource : Bool) (h : H) (r : Rec) (lin
         · attr_loop_step
         · simp
         · simp; omega )
+
+private theorem toOption_bind_none {α β} (x : M α) (f : α → M β) (hx : x.toOption = none) :
+    (x >>= f).toOption = none := by
+  cases x with
+  | ok v => simp [Except.toOption] at hx
+  | error e => simp [bind, Except.bind, Except.toOption]
+
+/-- when `appendFullLevel` panics, so does the translated `Handle` (first effectful statement) -/
+theorem Json_Handle_level_panics (fuel : Nat) (addSource : Bool) (pre : Bytes) (nOpen : Int)
+    (addSep : Bool) (time : Bytes) (level : Int) (file : Bytes) (lineNo : Int) (msg : Bytes)
+    (as : List Attr) (hl : level < -2 ∨ 17 < level) :
+    (Glb.Tr.Logger.Json_Handle fuel [] addSource pre nOpen addSep time level file lineNo msg
+      as).toOption = none := by
+  unfold Glb.Tr.Logger.Json_Handle
+  dsimp only
+  exact toOption_bind_none _ _ (Glb.Tie.TrJson.appendFullLevel_panics _ level hl)
+
+/-- **the translated `Handle` is the model's `handle`** for ALL inputs (every level), as equality after
+    `Except.toOption`: ok-results agree, and one side panics iff the other does (payload erased) -/
+theorem Json_Handle_eq (fuel : Nat) (addSource : Bool) (h : H) (r : Rec) (lineNo : Int)
+    (hline : r.line = Glb.Go.Lib.itoa lineNo) (hf : depthList r.attrs ≤ fuel) :
+    ((Glb.Tr.Logger.Json_Handle fuel [] addSource h.pre (h.nOpenGroups : Int) h.addSep r.time
+        r.level r.file lineNo r.msg r.attrs).map (·.1)).toOption
+      = (handle addSource h r).toOption := by
+  by_cases hlevel : -2 ≤ r.level
+  · rw [Json_Handle_exact fuel addSource h r lineNo hline hf hlevel]
+  · have h1 := Json_Handle_level_panics fuel addSource h.pre (h.nOpenGroups : Int) h.addSep r.time
+      r.level r.file lineNo r.msg r.attrs (Or.inl (by omega))
+    have h2 : fullLevel r.level = .error (.other "index out of range (negative)") := by
+      unfold fullLevel
+      rw [if_pos (by omega)]
+    cases hj : Glb.Tr.Logger.Json_Handle fuel [] addSource h.pre (h.nOpenGroups : Int) h.addSep
+        r.time r.level r.file lineNo r.msg r.attrs with
+    | ok v => rw [hj] at h1; simp [Except.toOption] at h1
+    | error e => simp [handle, h2, bind, Except.bind, Except.map, Except.toOption]
+
+/-! ### derivation chains and C01 for the translated methods -/
+
+/-- deepest attribute tree of a derivation chain (the fuel the translated `WithAttrs` calls need) -/
+def chainDepth : List Deriv → Nat
+  | [] => 0
+  | .attrs as :: ds => max (depthList as) (chainDepth ds)
+  | .group _ :: ds => chainDepth ds
+
+/-- one derivation step with the TRANSLATED methods, on the handler-state triple -/
+def trDerive (fuel : Nat) (st : Bytes × Int × Bool) : Deriv → M (Bytes × Int × Bool)
+  | .attrs as => (Glb.Tr.Logger.Json_WithAttrs fuel st.1 st.2.1 st.2.2 as).map
+      (fun t => (t.1, t.2.1, t.2.2.1))
+  | .group g => (Glb.Tr.Logger.Json_WithGroup st.1 st.2.1 st.2.2 g).map
+      (fun t => (t.1, t.2.1, t.2.2.1))
+
+/-- a chain of `WithAttrs` / `WithGroup` with the translated methods -/
+def trDeriveAll (fuel : Nat) (st : Bytes × Int × Bool) : List Deriv → M (Bytes × Int × Bool)
+  | [] => pure st
+  | d :: ds => trDerive fuel st d >>= fun st' => trDeriveAll fuel st' ds
+
+/-- the handler-state triple of a model handler -/
+def triple (h : H) : Bytes × Int × Bool := (h.pre, (h.nOpenGroups : Int), h.addSep)
+
+theorem trDerive_eq (fuel : Nat) (h : H) (d : Deriv) (hf : chainDepth [d] ≤ fuel) :
+    trDerive fuel (triple h) d = .ok (triple (derive h d)) := by
+  cases d with
+  | attrs as =>
+    have hf' : depthList as ≤ fuel := by simp only [chainDepth] at hf; omega
+    simp only [trDerive, triple, Json_WithAttrs_eq fuel h as hf', Except.map, derive]
+  | group g =>
+    simp only [trDerive, triple, Json_WithGroup_eq h g, Except.map, derive]
+
+theorem trDeriveAll_eq (fuel : Nat) (h : H) (ds : List Deriv) (hf : chainDepth ds ≤ fuel) :
+    trDeriveAll fuel (triple h) ds = .ok (triple (deriveAll h ds)) := by
+  induction ds generalizing h with
+  | nil => rfl
+  | cons d ds ih =>
+    have h1 : chainDepth [d] ≤ fuel ∧ chainDepth ds ≤ fuel := by
+      cases d <;> simp only [chainDepth] at hf ⊢ <;> omega
+    simp only [trDeriveAll, trDerive_eq fuel h d h1.1, bind, Except.bind]
+    rw [ih (derive h d) h1.2]
+    simp [deriveAll]
+
+open Glb.Json in
+/-- **C01 for the translated methods.**  Derive a handler from `NewJsonHandler`'s state `("", 0, true)`
+    through any chain with the translated `WithAttrs` / `WithGroup`, then call the translated `Handle`
+    on any record with a valid level: nothing panics, the fuel (≥ the deepest attribute tree) does not
+    run out, and the bytes produced are `body ++ "\n"` with `body` newline-free and a JSON text denoting
+    `expected addSource chain r` (the statement of `C01.C01_line`, same contract hypotheses). -/
+theorem C01_line_translated (fuel : Nat) (addSource : Bool) (chain : List Deriv) (r : Rec)
+    (lineNo : Int) (hline : r.line = Glb.Go.Lib.itoa lineNo)
+    (hfc : chainDepth chain ≤ fuel) (hf : depthList r.attrs ≤ fuel)
+    (hchain : ChainOk chain) (hrec : RecOk r) (hlevel : validLevel r.level = true) :
+    ∃ body,
+      (trDeriveAll fuel ([], 0, true) chain >>= fun st =>
+        Glb.Tr.Logger.Json_Handle fuel [] addSource st.1 st.2.1 st.2.2 r.time r.level r.file lineNo
+          r.msg r.attrs) = .ok (body ++ [0x0A], ()) ∧
+      0x0A ∉ body ∧ IsJson body (expected addSource chain r) := by
+  obtain ⟨body, hb, hnl, hj⟩ := Glb.C01.C01_line addSource chain r hchain hrec hlevel
+  refine ⟨body, ?_, hnl, hj⟩
+  have hl2 : -2 ≤ r.level := by
+    simp only [validLevel, Bool.or_eq_true, beq_iff_eq] at hlevel
+    omega
+  have h0 : (([], 0, true) : Bytes × Int × Bool) = triple H.init := rfl
+  rw [h0, trDeriveAll_eq fuel H.init chain hfc]
+  have he := Json_Handle_exact fuel addSource (deriveAll H.init chain) r lineNo hline hf hl2
+  rw [hb] at he
+  simp only [bind, Except.bind, triple]
+  cases hh : Glb.Tr.Logger.Json_Handle fuel [] addSource (deriveAll H.init chain).pre
+      ((deriveAll H.init chain).nOpenGroups : Int) (deriveAll H.init chain).addSep r.time r.level
+      r.file lineNo r.msg r.attrs with
+  | error e => rw [hh] at he; simp [Except.map] at he
+  | ok v =>
+    rw [hh] at he
+    simp only [Except.map, Except.ok.injEq] at he
+    obtain ⟨b, u⟩ := v
+    simp only at he
+    rw [he]
 
 end Glb.Tie.TrJsonHandler
